@@ -12,12 +12,14 @@ def sh(cmd, **kw):
     return subprocess.run(cmd, shell=True, stdout=subprocess.PIPE, stderr=subprocess.STDOUT, text=True, **kw)
 def main():
     a = sys.argv[1:]
-    d = os.path.abspath(a[0]); props = []; tier = 'quick'; verify = False
+    d = os.path.abspath(a[0]); props = []; tier = 'quick'; verify = False; demo = False; demoflags = '-std=c++17 -O1 -g'
     i = 1
     while i < len(a):
         if a[i] == '--props': props = a[i+1].split(','); i += 2
         elif a[i] == '--tier': tier = a[i+1]; i += 2
         elif a[i] == '--verify': verify = True; i += 1
+        elif a[i] == '--demo': demo = True; i += 1
+        elif a[i] == '--demoflags': demoflags = a[i+1]; i += 2
         else: raise SystemExit('bad arg ' + a[i])
     tag = hashlib.md5(d.encode()).hexdigest()[:8]
     wt = '/tmp/seedwt_' + tag
@@ -33,6 +35,22 @@ def main():
             r = sh('cd %s && cmake -S tests -B _b -G Ninja -DCMAKE_BUILD_TYPE=RelWithDebInfo >/dev/null && cmake --build _b --target unittest -j16 2>&1 | tail -3 && _b/unittest/unittest | tail -3' % wt)
             print('UNIT TESTS:', r.stdout.strip().splitlines()[-1] if r.stdout.strip() else '?')
             shutil.rmtree(os.path.join(wt, '_b'), ignore_errors=True)
+        if demo:
+            # the demonstration must fail with the change and pass without it
+            res = {}
+            for label, inc in (('with-change', os.path.join(wt, 'include')), ('without-change', '/repo/include')):
+                exe = '/tmp/seeddemo_%s_%s' % (tag, label)
+                r = sh('g++ %s -I%s %s -o %s -pthread 2>&1 | tail -5' % (demoflags, inc, os.path.join(d, 'demo.cpp'), exe))
+                if not os.path.exists(exe):
+                    res[label] = 'COMPILE-FAILED ' + r.stdout[-300:]
+                    continue
+                try:
+                    rr = subprocess.run([exe], stdout=subprocess.PIPE, stderr=subprocess.STDOUT, text=True, timeout=180, errors='replace')
+                    res[label] = 'exit=%d %s' % (rr.returncode, (rr.stdout.strip().splitlines() or [''])[-1][:120])
+                except subprocess.TimeoutExpired:
+                    res[label] = 'TIMEOUT(180s)'
+                os.remove(exe)
+            print('DEMO: with change: %s | without: %s' % (res.get('with-change'), res.get('without-change')))
         out = {}
         for p in props:
             env = dict(os.environ, VERIF_REPO=wt, VERIF_SCRATCH=tag)
